@@ -356,7 +356,7 @@ def aff_show(a):
 # ---------------------------------------------------------------------------
 # path enumeration over loop-free statement trees (E1 `dtab`)
 
-def enum_paths(stmt, decide, want, limit=512):
+def enum_paths(stmt, decide, want, limit=512, loops="opaque"):
     """Enumerate the paths through a statement tree made of CompoundStmt / IfStmt / ReturnStmt /
     expression and declaration statements. decide(cond) -> True / False / None (None: both outcomes are
     followed and (cond, outcome) is added to the path's guards). want(node) -> bool selects the
@@ -373,6 +373,9 @@ def enum_paths(stmt, decide, want, limit=512):
                 if not k:
                     out.append({"events": events, "guards": guards, "returned": None})
                     return
+                if k[0][0] == "__loop_end__":
+                    k = k[1:]
+                    continue
                 (nodes, i), k = k[0], k[1:]
                 continue
             n = nodes[i]
@@ -405,7 +408,23 @@ def enum_paths(stmt, decide, want, limit=512):
                 out.append({"events": ev, "guards": guards, "returned": n})
                 return
             if kind in ("ContinueStmt", "BreakStmt"):
-                out.append({"events": events, "guards": guards, "returned": None, "jump": kind})
+                # inside a loop body being followed for one iteration: the jump ends the iteration
+                for j, fr in enumerate(k):
+                    if fr[0] == "__loop_end__":
+                        (nodes, i), k = k[j + 1], k[j + 2:]
+                        break
+                else:
+                    out.append({"events": events, "guards": guards, "returned": None, "jump": kind})
+                    return
+                continue
+            if kind == "__loop_end__":
+                i += 1
+                continue
+            if loops == "unroll1" and kind in ("ForStmt", "WhileStmt", "CXXForRangeStmt", "DoStmt") and n.get("body") is not None:
+                # zero iterations (not for do-while), or one iteration followed by the code after the loop
+                if kind != "DoStmt":
+                    go(nodes, i + 1, list(events), list(guards), k)
+                go([n["body"]], 0, list(events), list(guards), [("__loop_end__", 0), (nodes, i + 1)] + k)
                 return
             u = n
             while u.get("k") in ("ExprWithCleanups", "ParenExpr") and len(u.get("c") or []) == 1:
@@ -418,3 +437,150 @@ def enum_paths(stmt, decide, want, limit=512):
             i += 1
     go([stmt], 0, [], [], [])
     return out
+
+
+# ---------------------------------------------------------------------------
+# canonical form of simple conditions (so that rules do not depend on how a test is spelled)
+
+def _subj(n):
+    n = strip(n)
+    if n is None:
+        return "?"
+    if n.get("k") == "DeclRefExpr":
+        return "v#%s" % n["ref"].get("did")
+    return text(n)
+
+
+def _is_null_lit(n):
+    n = strip(n)
+    return n is not None and (n.get("k") in ("CXXNullPtrLiteralExpr", "GNUNullExpr") or (n.get("k") == "IntegerLiteral" and n.get("v") == 0 and False))
+
+
+def _is_zero_lit(n):
+    n = strip(n)
+    return n is not None and ((n.get("k") == "IntegerLiteral" and n.get("v") == 0) or n.get("cv") == 0 and n.get("k") not in ("DeclRefExpr", "MemberExpr", "CallExpr", "CXXMemberCallExpr"))
+
+
+def _is_one_lit(n):
+    n = strip(n)
+    return n is not None and n.get("k") == "IntegerLiteral" and n.get("v") == 1
+
+
+def _size_of(n):
+    """subject x when n is x.size(), else None"""
+    n = strip(n)
+    if n is not None and n.get("k") == "CXXMemberCallExpr" and (n.get("callee") or "").endswith("::size") and n.get("c"):
+        m = n["c"][0]
+        if m.get("k") == "MemberExpr" and m.get("c"):
+            return m["c"][0]
+    return None
+
+
+def _ptr_typed(n):
+    n0 = n
+    while n0 is not None and n0.get("k") in TRANSPARENT and len(n0.get("c") or []) == 1:
+        if n0.get("ck") == "PointerToBoolean":
+            return True
+        if n0.get("ck") == "IntegralToBoolean":
+            return False
+        n0 = n0["c"][0]
+    t = (n0 or {}).get("t") or ""
+    return t.rstrip().endswith("*") or "shared_ptr" in t or "unique_ptr" in t
+
+
+def canon(n):
+    """canonical tuple of a condition:
+       ('null', s) pointer s is null        ('empty', s) container s has no element      ('zero', s) integer s is 0
+       ('eq', a, b) a == b (operands ordered)   ('not', f)   ('and', f, g)   ('or', f, g)   ('expr', text)
+    Double negations are removed; `p == nullptr`, `!p`, `nullptr == p` all give ('null', p); `x.empty()`, `x.size() == 0`,
+    `!x.size()` give ('empty', x); `x.size() > 0`, `x.size() != 0`, `x.size() >= 1`, `!x.empty()` give ('not', ('empty', x))."""
+    def neg(f):
+        return f[1] if f[0] == "not" else ("not", f)
+    raw = n
+    n = strip(n)
+    if n is None:
+        return ("expr", "?")
+    k = n.get("k")
+    c = n.get("c") or []
+    if k == "UnaryOperator" and n.get("op") == "!":
+        return neg(canon(c[0]))
+    if k == "BinaryOperator" and n.get("op") in ("&&", "||"):
+        return ("and" if n["op"] == "&&" else "or", canon(c[0]), canon(c[1]))
+    if k == "CXXMemberCallExpr" and (n.get("callee") or "").endswith("::empty") and c and c[0].get("c"):
+        return ("empty", _subj(c[0]["c"][0]))
+    if k == "BinaryOperator" and n.get("op") in ("==", "!=", ">", ">=", "<", "<="):
+        a, b, op = c[0], c[1], n["op"]
+        for x, y, o in ((a, b, op), (b, a, {"<": ">", ">": "<", "<=": ">=", ">=": "<="}.get(op, op))):
+            sz = _size_of(x)
+            if sz is not None and _is_zero_lit(y):
+                if o == "==":
+                    return ("empty", _subj(sz))
+                if o in ("!=", ">"):
+                    return ("not", ("empty", _subj(sz)))
+            if sz is not None and _is_one_lit(y) and o == ">=":
+                return ("not", ("empty", _subj(sz)))
+            if _is_null_lit(y) or (_is_zero_lit(y) and _ptr_typed(x)):
+                if o == "==":
+                    return ("null", _subj(x))
+                if o == "!=":
+                    return ("not", ("null", _subj(x)))
+            if _is_zero_lit(y):
+                if o == "==":
+                    return ("zero", _subj(x))
+                if o in ("!=", ">"):
+                    return ("not", ("zero", _subj(x)))
+        if op in ("==", "!="):
+            sa, sb = sorted((_subj(a), _subj(b)))
+            f = ("eq", sa, sb)
+            return f if op == "==" else ("not", f)
+        return ("expr", text(n))
+    # a value used as a condition
+    sz = _size_of(n)
+    if sz is not None:
+        return ("not", ("empty", _subj(sz)))
+    if k in ("DeclRefExpr", "MemberExpr"):
+        if _ptr_typed(raw):
+            return ("not", ("null", _subj(n)))
+        t = n.get("t") or ""
+        if t in ("bool", "const bool"):
+            return ("expr", _subj(n))
+        return ("not", ("zero", _subj(n)))
+    return ("expr", text(n))
+
+
+def eval_int_cond(c, symname, values):
+    """truth of a condition over integer symbols with the given values (comparisons, !, &&, ||, a bare value as a
+    truth value); None when it mentions anything else"""
+    c0 = strip(c)
+    if c0 is None:
+        return None
+    k = c0.get("k")
+    if k == "UnaryOperator" and c0.get("op") == "!":
+        v = eval_int_cond(c0["c"][0], symname, values)
+        return None if v is None else (not v)
+    if k == "BinaryOperator" and c0.get("op") in ("&&", "||"):
+        a, b = eval_int_cond(c0["c"][0], symname, values), eval_int_cond(c0["c"][1], symname, values)
+        if a is None or b is None:
+            return None
+        return (a and b) if c0["op"] == "&&" else (a or b)
+
+    def value(n):
+        a = affine(n, {}, symname)
+        if a is None:
+            return None
+        tot = 0
+        for s_, co in a.items():
+            if s_ == 1:
+                tot += co
+            elif s_ in values:
+                tot += co * values[s_]
+            else:
+                return None
+        return tot
+    if k == "BinaryOperator" and c0.get("op") in ("==", "!=", ">", "<", ">=", "<="):
+        l, r = value(c0["c"][0]), value(c0["c"][1])
+        if l is None or r is None:
+            return None
+        return {"==": l == r, "!=": l != r, ">": l > r, "<": l < r, ">=": l >= r, "<=": l <= r}[c0["op"]]
+    v = value(c0)
+    return None if v is None else (v != 0)
